@@ -76,7 +76,7 @@ def main():
                 chk.violation(scn, 'accepted without a successful verification under the signing key', detail)
         chk.sample({'scn': scn, 'expected': 'accept' if case['mustAccept'] else ('reject' if case['mustReject'] else 'open'),
                     'observed': obs['verdict'], 'exc': obs.get('exc')}, limit=5)
-    if nacc == 0:
+    if nacc == 0 and not chk.violations:
         raise fw.Machinery('nothing accepted: templates broken')
     chk.cov['exhaustive'] = True
     chk.cov['rule'] = ('all 1 680 scenarios of SPKeys.tla: 7 key-descriptor layouts of the issuer x claimed issuer x real signing key '
